@@ -83,6 +83,14 @@ pub fn run_c06(out: &mut Out, tier: &str, seed: u64) {
                 let s2 = kp.sign_with_defaults(m.clone()).unwrap();
                 if s2.to_vec()[..64] != ls[..] { out.hit("obj.sign.differs-from-libsodium", format!("len {}", len), json!({"len":len})); }
                 if s2.verify(&kp.public_key).is_err() { out.hit("obj.sign.verify.rejects-own", format!("len {}", len), json!({"len":len})); }
+                // the combined form read back through the object API: libsodium's and dryoc's own bytes
+                out.search_evaluations += 2;
+                for (who, bytes) in [("libsodium", sodium::sign_combined(&m, &lsk)), ("own", s2.to_vec())] {
+                    match guard(|| dryoc::sign::VecSignedMessage::from_bytes(&bytes)) {
+                        Outcome::Ok(smo) => { if smo.verify(&kp.public_key).is_err() { out.hit("obj.sign.from_bytes.no-longer-verifies", format!("{} bytes, len {}", who, len), json!({"op":"obj.SignedMessage.from_bytes","bytes":hx(&bytes),"pk":hx(&pk)})); } }
+                        o => out.hit("obj.sign.from_bytes.rejects-valid", format!("{} signed message of length {}: {}", who, len, o.class()), json!({"op":"obj.SignedMessage.from_bytes","bytes":hx(&bytes),"pk":hx(&pk)})),
+                    }
+                }
             }
             // pre-hashed incremental mode
             if len % 3 == 0 || len < 10 {
